@@ -60,6 +60,21 @@ fn check_log_unguarded(l: u8) -> Result<(), String> {
         if back.log_block_size() != l || back.block_size() != bs {
             return Err(format!("reparse of {} gives log {}", s, back.log_block_size()));
         }
+        // decimal -> logarithm -> decimal is the identity: no other decimal spelling may stand for this block size,
+        // in particular none that only equals it modulo 2^32 (or 2^64)
+        for k in 1..=5u128 {
+            for base in [1u128 << 32, 1u128 << 64] {
+                let alias = format!("{}:A:B", bs as u128 + k * base);
+                if let Ok(h) = guarded(|| alias.parse::<RawFuzzyHash>())? {
+                    return Err(format!("{} parses (as block size {})", alias, h.block_size()));
+                }
+            }
+        }
+        for alias in [format!("0{}:A:B", bs), format!("+{}:A:B", bs), format!("{} :A:B", bs), format!("{}.0:A:B", bs)] {
+            if let Ok(h) = guarded(|| alias.parse::<RawFuzzyHash>())? {
+                return Err(format!("{:?} parses (as block size {})", alias, h.block_size()));
+            }
+        }
         let h2 = guarded(|| RawFuzzyHash::new_from_internals(bs, &[], &[]))?;
         if h2.log_block_size() != l {
             return Err(format!("new_from_internals({}) log {}", bs, h2.log_block_size()));
